@@ -1153,6 +1153,76 @@ fn lb(max_threads: usize, calls: usize, stress_rounds: usize, stress_calls: usiz
     }
 }
 
+/// `proxy stall`: three proxy_handler calls in flight at once on ONE route (one balancer, round robin over a target that accepts
+/// and never answers and a target that answers at once).  Proxy.tla bounds every call by its own deadline: the call that goes to the
+/// healthy target is answered with its 200 without waiting for the others, each call to the silent target is answered 502 within
+/// the handler's 5 s plus slack - not 5 s later per call queued before it.  Added after a seeded balancer lock held across
+/// proxy_request (the guard living to the end of a `match` scrutinee) was missed (round 8): single calls and concurrent
+/// select_target calls alone show nothing.
+fn stall() {
+    let state = app_state();
+    let stop = Arc::new(AtomicBool::new(false));
+    let silent = bind_loopback();
+    let fast = bind_loopback();
+    let targets = vec![silent.local_addr().unwrap().to_string(), fast.local_addr().unwrap().to_string(), silent.local_addr().unwrap().to_string()];
+    let held: Arc<Mutex<Vec<TcpStream>>> = Arc::new(Mutex::new(vec![]));
+    let (stop1, held1) = (stop.clone(), held.clone());
+    let up1 = spawn_retry("stall-silent", move || loop {
+        match silent.accept() {
+            Ok((s, _)) => { if stop1.load(Ordering::SeqCst) { break; } held1.lock().unwrap().push(s); }
+            Err(_) => { if stop1.load(Ordering::SeqCst) { break; } }
+        }
+    });
+    let stop2 = stop.clone();
+    let up2 = spawn_retry("stall-fast", move || loop {
+        match fast.accept() {
+            Ok((mut s, _)) => {
+                if stop2.load(Ordering::SeqCst) { break; }
+                let _ = read_request(&mut s, Instant::now() + Duration::from_millis(2000));
+                let _ = s.write_all(b"HTTP/1.1 200 OK\r\nContent-Length: 2\r\n\r\nT2");
+            }
+            Err(_) => { if stop2.load(Ordering::SeqCst) { break; } }
+        }
+    });
+    let lb = Arc::new(EqMutex::new(LoadBalancer { targets: targets.clone(), mode: LoadBalancerMode::RoundRobin, index: 0, lcg: Lcg::new() }));
+    let t0 = Instant::now();
+    let hs: Vec<_> = (0..3usize)
+        .map(|t| {
+            let (lb, state) = (lb.clone(), state.clone());
+            spawn_retry("cut", move || {
+                // staggered by 150 ms so that the order of the three selections is the order of the threads
+                std::thread::sleep(Duration::from_millis(150 * t as u64));
+                let req = build_request(&json!({"m": "GET", "uri": "/lb/x", "q": "", "ver": "HTTP/1.1", "hdrs": ["host: lb.example"], "xff": [], "body": "-", "pad": 0, "peer": "127.0.0.1"}));
+                let t1 = Instant::now();
+                let r = std::panic::catch_unwind(std::panic::AssertUnwindSafe(|| proxy_handler(req, state.clone(), &lb, "/lb/*")));
+                let ms = t1.elapsed().as_millis() as u64;
+                match r {
+                    Ok(resp) => (u16::from(resp.status_code), String::from_utf8_lossy(&resp.body).chars().take(40).collect::<String>(), ms),
+                    Err(_) => (0u16, "panic".to_string(), ms),
+                }
+            })
+        })
+        .collect();
+    let res: Vec<(u16, String, u64)> = hs.into_iter().map(|h| h.join().unwrap_or((0, "harness thread died".into(), 0))).collect();
+    stop.store(true, Ordering::SeqCst);
+    for t in targets.iter().take(2) { let _ = TcpStream::connect(t.as_str()); }
+    let _ = up1.join();
+    let _ = up2.join();
+    let slack = 4000u64;
+    let mut bad: Vec<String> = vec![];
+    for (i, (code, body, ms)) in res.iter().enumerate() {
+        if i == 1 {
+            if !(*code == 200 && body == "T2") { bad.push(format!("call 2 (healthy target): answered {} {:?}", code, body)); }
+            if *ms > slack { bad.push(format!("call 2 (healthy target) was answered after {} ms: it waited for a call to another target", ms)); }
+        } else {
+            if *code != 502 { bad.push(format!("call {} (silent target): answered {} {:?}, not 502", i + 1, code, body)); }
+            if *ms > HANDLER_TIMEOUT_MS + slack { bad.push(format!("call {} (silent target) was answered after {} ms (timeout {} ms + {} ms slack)", i + 1, ms, HANDLER_TIMEOUT_MS, slack)); }
+        }
+    }
+    out_line(&json!({"summary": true, "calls": res.iter().map(|(c, b, ms)| json!({"code": c, "body": b, "ms": ms})).collect::<Vec<_>>(),
+        "total_ms": t0.elapsed().as_millis() as u64, "bad": bad}));
+}
+
 fn main() {
     // panics of the code under test (threads named "cut") are data and stay silent; a panic of the harness itself is
     // reported on stderr so that the driver's tool error says what happened
@@ -1166,6 +1236,7 @@ fn main() {
     match a.get(1).map(|s| s.as_str()) {
         Some("replay") => replay(num(2, 450), num(3, 3), num(4, 32) as usize),
         Some("cuts") => cuts(num(2, 300), num(3, 32) as usize, num(4, 4) as usize, num(5, 6) as usize, num(6, 0) as usize, num(7, 0) as usize),
+        Some("stall") => stall(),
         Some("lb") => lb(num(2, 4) as usize, num(3, 3) as usize, num(4, 0) as usize, num(5, 300) as usize),
         Some("one") => {
             let state = app_state();
